@@ -162,7 +162,7 @@ var stageEv = map[string]string{"T": "EvTerm", "D": "EvNewDial", "S": "EvHandler
 func c11Stage(run *Run, dir string) int {
 	scripts := []string{"T,M", "D,T,M", "D,S,T,M", "D,S,S,T,M", "D,S,S,S,T,M", "D,S,S,S,S,M", "D,F,T,M", "D,S,F,T,M", "D,S,S,F,T,M",
 		"D,F,D,T,M", "D,F,D,S,S,S,S,M", "D,H,S,S,S,S,M", "D,S,H,T,M", "D,H,T,M", "D,S,S,H,F,T,M"}
-	sh := run.NewShard("From MV Require Import Gen.StageTokens Model.Stage.\nFrom Coq Require Import List.\nImport ListNotations.\n", "stage_case", "stage_mismatches stop_always_drains")
+	sh := run.NewShard(inlineGen(genStageTokens)+"From MV Require Import Model.Stage.\nFrom Coq Require Import List.\nImport ListNotations.\n", "stage_case", "stage_mismatches stop_always_drains")
 	for _, sc := range scripts {
 		var res stageResult
 		var lastErr string
